@@ -552,6 +552,8 @@ direct:
 					return false
 				}
 				resultDecls = append(resultDecls, &ast.DeclStmt{Decl: &ast.GenDecl{Tok: token.VAR, Specs: []ast.Spec{&ast.ValueSpec{Names: []*ast.Ident{ast.NewIdent(rn)}, Type: te}}}})
+				// a named result the helper never mentions would be an unused local
+				resultDecls = append(resultDecls, &ast.AssignStmt{Lhs: []ast.Expr{ast.NewIdent("_")}, Tok: token.ASSIGN, Rhs: []ast.Expr{ast.NewIdent(rn)}})
 			}
 		}
 	}
